@@ -177,7 +177,7 @@ def i3(facts, tier):
 
 from .. import rx  # noqa: E402
 from ..shape import Analyzer, Ex  # noqa: E402
-from ..ir import peel  # noqa: E402
+from ..ir import peel, peel_block  # noqa: E402
 
 
 def save_classifier(an, n, argvals, env):
@@ -287,3 +287,135 @@ def i6(facts, tier):
             yield ob(["C08"], "I6", key, "violation", where(f),
                      f"{f['id']} performs fallible I/O and panics on failure without checking whether the operation already failed: "
                      f"after save returned Err the destructor retries and panics")
+
+
+# ---------------------------------------------------------------------------------------------
+# I6b: the failure flag that Drop consults is set before the first fallible operation it stands for
+
+@rule("I6b", ["C08"], floor=1, doc="a type whose Drop skips its implicit I/O when a failure flag is set: in the method Drop would call, the flag is "
+      "raised before the first fallible call and lowered only after the last one, so an error leaving that method always leaves the "
+      "flag set (otherwise the destructor retries after the failure was reported: it panics, or writes more bytes)")
+def i6b(facts, tier):
+    for d in facts.fns_of_crate("savefile"):
+        im = d.get("impl") or {}
+        if im.get("trait") not in ("core::ops::drop::Drop", "std::ops::Drop"):
+            continue
+        # flag consulted by Drop and the method it calls
+        flag = None
+        for s in d["body"].get("stmts", []):
+            e = s.get("e") if s.get("k") == "ExprS" else None
+            if e and e.get("k") == "If":
+                c = peel(e["c"])
+                if c.get("k") == "Field" and c.get("ty") == "bool" and any(y.get("k") == "Return" for y in walk(e["t"])):
+                    flag = c["f"]
+        if flag is None:
+            continue
+        targets = []
+        for x in walk(d["body"]):
+            if x.get("k") == "Call" and is_err_result(x.get("ty")):
+                t = (x.get("res") or {}).get("fn") or x.get("fn")
+                if t in facts.fns and facts.fns[t]["crate"] == "savefile":
+                    targets.append(facts.fns[t])
+        for m in targets:
+            # linear order of events in the method: flag := true / flag := false / fallible call
+            events = []
+            for x in walk(m["body"]):
+                if x.get("k") == "Assign":
+                    l = x["l"]
+                    while l.get("k") in ("Deref",):
+                        l = l["e"]
+                    if l.get("k") == "Field" and l.get("f") == flag:
+                        r = peel(x["r"])
+                        if r.get("k") == "Lit":
+                            events.append(("set" if r.get("int") == 1 else "clear", x))
+                if x.get("k") == "Call" and is_err_result(x.get("ty")) and not (callee(x) or "").endswith("Error::new"):
+                    events.append(("call", x))
+            kinds = [k for k, _ in events]
+            key = f"{im.get('self_ty', d['id'])}:{m['id'].rsplit('::', 1)[-1]}"
+            if "set" not in kinds or "call" not in kinds:
+                yield ob(["C08"], "I6b", key, "undecided", where(m), f"{m['id']}: flag `{flag}` or fallible calls not found")
+                continue
+            first_call = kinds.index("call")
+            first_set = kinds.index("set")
+            last_call = len(kinds) - 1 - kinds[::-1].index("call")
+            clears = [i for i, k in enumerate(kinds) if k == "clear"]
+            # the raising assignment must not sit inside a loop/branch that the first call does not
+            pm = parent_map(m["body"])
+            def depth(n):
+                dd, p = 0, pm.get(id(n))
+                while p is not None:
+                    if p.get("k") in ("Loop", "For", "If", "Match"):
+                        dd += 1
+                    p = pm.get(id(p))
+                return dd
+            ok = first_set < first_call and depth(events[first_set][1]) == 0 and all(c > last_call for c in clears)
+            bad = events[first_call][1]
+            yield ob(["C08"], "I6b", key, "pass" if ok else "violation", where(m, bad if not ok else events[first_set][1]),
+                     f"{m['id']}: `{flag}` is raised before the first of {kinds.count('call')} fallible calls and lowered after the last" if ok else
+                     f"{m['id']}: the fallible call `{(callee(bad) or '').rsplit('::', 1)[-1]}` can fail while `{flag}` is not (yet) set: "
+                     f"the error is returned, Drop sees a clean flag and repeats the operation - it panics on a persistent fault, or emits "
+                     f"further bytes after the failure was reported")
+
+
+# ---------------------------------------------------------------------------------------------
+# I7: an error is not lost by overwriting it
+
+@rule("I7", ["C08", "C15", "C07"], floor=0, doc="a Result stored into a variable inside a loop is inspected in the same iteration (or only assigned "
+      "while the variable still holds Ok): otherwise a later Ok overwrites an earlier Err and the failure is never reported")
+def i7(facts, tier):
+    n = 0
+    for f in list(facts.fns_of_crate("savefile")) + list(facts.fns_of_crate("savefile_abi")):
+        body = f.get("body")
+        if not body:
+            continue
+        pm = None
+        for x in walk(body):
+            if x.get("k") != "Assign":
+                continue
+            l = peel(x["l"])
+            r = x["r"]
+            if l.get("k") != "Var" or not is_err_result(r.get("ty")):
+                continue
+            rr = peel_block(peel(r))
+            if rr.get("k") != "Call":
+                continue
+            pm = pm or parent_map(body)
+            loop = None
+            guarded = False
+            p, child = pm.get(id(x)), x
+            while p is not None:
+                if p.get("k") == "If" and child is p["t"]:
+                    for y in walk(p["c"]):
+                        if y.get("k") == "Call" and (callee(y) or "").endswith(("Result::is_ok", "Result::is_err")) and y.get("args") \
+                                and peel(y["args"][0]).get("k") == "Var" and peel(y["args"][0])["v"] == l["v"]:
+                            guarded = True
+                if p.get("k") in ("Loop", "For"):
+                    loop = p
+                    break
+                child = p
+                p = pm.get(id(p))
+            if loop is None:
+                continue
+            n += 1
+            inspected = False
+            for y in walk(loop["body"]):
+                if y is x:
+                    continue
+                k = y.get("k")
+                if k == "Try" and peel(y["e"]).get("k") == "Var" and peel(y["e"])["v"] == l["v"]:
+                    inspected = True
+                if k == "Match" and peel(y["e"]).get("k") == "Var" and peel(y["e"])["v"] == l["v"]:
+                    inspected = True
+                if k == "If" and any(z.get("k") == "Var" and z["v"] == l["v"] for z in walk(y["c"])):
+                    inspected = True
+                if k == "Return" and y.get("e") is not None and any(z.get("k") == "Var" and z["v"] == l["v"] for z in walk(y["e"])):
+                    inspected = True
+            ok = inspected or guarded
+            key = f"{f['id']}:{l['v'].split('#')[0]}"
+            yield ob(["C08", "C15", "C07"], "I7", key, "pass" if ok else "violation", where(f, x),
+                     f"{f['id']}: the result stored in `{l['v'].split('#')[0]}` is inspected within the iteration" if ok else
+                     f"{f['id']}: the result of `{(callee(rr) or '').rsplit('::', 1)[-1]}` is stored in `{l['v'].split('#')[0]}` on every iteration "
+                     f"and only looked at after the loop: an Err from an earlier iteration is overwritten by a later Ok and never reported")
+    if n == 0:
+        yield ob(["C08", "C15", "C07"], "I7", "no-result-accumulator", "pass", "", "no Result is stored into a loop-carried variable in "
+                 "savefile / savefile-abi: errors leave loops by `?` or `return`", nontrivial=False)
